@@ -24,9 +24,13 @@ Definition mem_req (r : req) (l : list req) : bool := existsb (req_eqb r) l.
 
 Definition all_reqs : list req := [RPause; RContinue; RState; RNow; RTick; RInspect; RBuffers; RProgress].
 
-(** model verdict = detector verdict, endpoint by endpoint *)
+(** detector verdict within the model verdict, endpoint by endpoint: an endpoint the
+    race detector implicates must be one the model says MAY race.  The converse is not
+    required of a single run: whether a possible race manifests depends on the Go
+    scheduler (requiring it made the check flaky on the unchanged tree, e.g. seed 2:
+    parallel engine, pause+progress requests, no report in 151 requests). *)
 Definition check_case (c : case) : bool :=
-  forallb (fun r => Bool.eqb (mem_req r (o_raced c)) (mem_req r (c_reqs c) && may_race (c_par c) (c_prog c) r)) all_reqs &&
+  forallb (fun r => implb (mem_req r (o_raced c)) (mem_req r (c_reqs c) && may_race (c_par c) (c_prog c) r)) all_reqs &&
   (* when the model predicts no race the run must be undisturbed; a racing run may end in any state *)
   (existsb (may_race (c_par c) (c_prog c)) (c_reqs c) || (o_same c && o_done c)).
 
